@@ -73,6 +73,12 @@ SCOPE = [
     ("esutil.stat.util.cov2cor", ["cov"], [{}]),
     ("esutil.stat.util.cor2cov", ["cor", "diagerr"], [{}]),
     ("esutil.stat.util.boxcar_average", ["x"], [{}]),
+    ("esutil.stat.util.histogram2d", ["x", "y"], [{}]),
+    ("esutil.stat.util.print_stats", ["arr"], [{}]),
+    ("esutil.numpy_util.select_percentile", ["x", "perc"], [{"get_ranges": v} for v in B]),
+    ("esutil.numpy_util.between", ["arr"], [{}]),
+    ("esutil.numpy_util.outside", ["arr"], [{}]),
+    ("esutil.numpy_util.arrscl", ["arr"], [{}]),
     # coordinates
     ("esutil.coords.euler", ["ai", "bi"], [{"b1950": v} for v in B]),
     ("esutil.coords.eq2gal", ["ra", "dec"], [{}]),
@@ -201,6 +207,8 @@ def run(chk):
 #   * constructors that wrap an existing buffer without copying (numpy.ma arrays with copy off, as_strided,
 #     sliding_window_view, frombuffer, ndarray(buffer=...), memoryview).
 COPY_KW_INPLACE = {"nan_to_num": 1}       # function -> positional slot of `copy`; argument 0 is the array
+CLOBBER_ARGNAME = {"overwrite_input": "a", "overwrite_a": "a", "overwrite_x": "x", "overwrite_data": "data",
+                   "overwrite_ab": "ab", "overwrite_b": "b", "overwrite_y": "y"}
 CLOBBER_KW = {"overwrite_input": 0, "overwrite_a": 0, "overwrite_x": 0, "overwrite_data": 0, "overwrite_ab": 0,
               "overwrite_b": 1, "overwrite_y": 1}
 MORE_DEST0 = {"put_along_axis"}
@@ -277,6 +285,147 @@ class _AnalyseX(effects._Analyse):
             return self._as_view(self.val(c.args[0], env), arr=False)
         return super().call_value(c, env)
 
+    # ---- keyword dictionaries handed to library calls -------------------------------------------------------------
+    def _clobber_target(self, c, key):
+        """the argument expression a clobber keyword gives the library permission to overwrite"""
+        i = CLOBBER_KW[key]
+        if i < len(c.args):
+            if any(isinstance(a, ast.Starred) for a in c.args[:i + 1]):
+                return None
+            return c.args[i]
+        return kwarg(c, CLOBBER_ARGNAME[key])
+
+    def _dict_expr(self, e, depth=0):
+        """(entries, source names) of an expression that builds a keyword dictionary: entries are (constant key, value
+        node, description) the expression itself places, source names are the dictionaries it copies/merges/aliases"""
+        ent, src = [], set()
+        if e is None or depth > 6:
+            return ent, src
+        if isinstance(e, ast.Name):
+            src.add(e.id)
+        elif isinstance(e, ast.Dict):
+            for k, v in zip(e.keys, e.values):
+                if k is None:
+                    e2, s2 = self._dict_expr(v, depth + 1)
+                    ent += e2
+                    src |= s2
+                elif isinstance(k, ast.Constant) and isinstance(k.value, str):
+                    ent.append((k.value, v, "{%r: %s}" % (k.value, norm(v))))
+        elif isinstance(e, ast.Call):
+            nm = call_name(e)
+            f = e.func
+            if isinstance(f, ast.Name) and f.id in ("dict", "OrderedDict") or (nm in ("copy", "deepcopy") and e.args):
+                for a in e.args[:1]:
+                    e2, s2 = self._dict_expr(a, depth + 1)
+                    ent += e2
+                    src |= s2
+                if isinstance(f, ast.Name):
+                    for k in e.keywords:
+                        if k.arg is None:
+                            e2, s2 = self._dict_expr(k.value, depth + 1)
+                            ent += e2
+                            src |= s2
+                        else:
+                            ent.append((k.arg, k.value, "dict(%s=%s)" % (k.arg, norm(k.value))))
+            elif isinstance(f, ast.Attribute) and nm == "copy" and not e.args:
+                return self._dict_expr(f.value, depth + 1)
+        elif isinstance(e, ast.BinOp) and isinstance(e.op, ast.BitOr):
+            for x in (e.left, e.right):
+                e2, s2 = self._dict_expr(x, depth + 1)
+                ent += e2
+                src |= s2
+        elif isinstance(e, ast.IfExp):
+            for x in (e.body, e.orelse):
+                e2, s2 = self._dict_expr(x, depth + 1)
+                ent += e2
+                src |= s2
+        elif isinstance(e, ast.BoolOp):
+            for x in e.values:
+                e2, s2 = self._dict_expr(x, depth + 1)
+                ent += e2
+                src |= s2
+        elif isinstance(e, ast.NamedExpr):
+            return self._dict_expr(e.value, depth + 1)
+        return ent, src
+
+    def _dict_facts(self):
+        """flow-insensitive facts about the dictionaries of this function: name -> entries placed by the function's own
+        statements, name -> names whose content may be copied into it"""
+        if getattr(self, "_dfacts", None) is not None:
+            return self._dfacts
+        ents, srcs = {}, {}
+
+        def add(name, ent, src):
+            if ent:
+                ents.setdefault(name, []).extend(ent)
+            if src - {name}:
+                srcs.setdefault(name, set()).update(src - {name})
+
+        for x in ast.walk(self.fi.node):
+            if isinstance(x, (ast.Assign, ast.AnnAssign)) and x.value is not None:
+                tgts = x.targets if isinstance(x, ast.Assign) else [x.target]
+                for t in tgts:
+                    if isinstance(t, ast.Name):
+                        add(t.id, *self._dict_expr(x.value))
+                    elif isinstance(t, ast.Subscript) and isinstance(t.value, ast.Name) and \
+                            isinstance(t.slice, ast.Constant) and isinstance(t.slice.value, str):
+                        add(t.value.id, [(t.slice.value, x.value, "%s = %s" % (norm(t), norm(x.value)))], set())
+            elif isinstance(x, ast.NamedExpr) and isinstance(x.target, ast.Name):
+                add(x.target.id, *self._dict_expr(x.value))
+            elif isinstance(x, ast.AugAssign) and isinstance(x.target, ast.Name) and isinstance(x.op, ast.BitOr):
+                add(x.target.id, *self._dict_expr(x.value))
+            elif isinstance(x, ast.Call) and isinstance(x.func, ast.Attribute) and isinstance(x.func.value, ast.Name):
+                n = x.func.value.id
+                if x.func.attr == "setdefault" and len(x.args) == 2 and isinstance(x.args[0], ast.Constant) \
+                        and isinstance(x.args[0].value, str):
+                    add(n, [(x.args[0].value, x.args[1], norm(x))], set())
+                elif x.func.attr == "update":
+                    for a in x.args[:1]:
+                        add(n, *self._dict_expr(a))
+                    for k in x.keywords:
+                        if k.arg is None:
+                            add(n, *self._dict_expr(k.value))
+                        else:
+                            add(n, [(k.arg, k.value, norm(x))], set())
+        self._dfacts = (ents, srcs)
+        return self._dfacts
+
+    def _kwdict_entries(self, e):
+        """every (key, value node | None, description) that may be in the dictionary expression `e` because this function
+        (or, for its own ** parameter, the analysed package caller) put it there"""
+        ents, srcs = self._dict_facts()
+        out, names = self._dict_expr(e)
+        out = list(out)
+        seen = set()
+        work = sorted(names)
+        kwp = [p[2:] for p in self.fi.params if p.startswith("**")]
+        while work:
+            n = work.pop()
+            if n in seen:
+                continue
+            seen.add(n)
+            out += ents.get(n, [])
+            work += sorted(srcs.get(n, ()))
+            if n in kwp:
+                for fk, fv in sorted(self.flags.items(), key=lambda kv: kv[0]):
+                    if fk.startswith("**") and fv is True:
+                        out.append((fk[2:], None, "%s=... passed on by the calling package function" % fk[2:]))
+        return out
+
+    def _bind(self, c, callee, bound, env):
+        binding, cflags = super()._bind(c, callee, bound, env)
+        if any(p.startswith("**") for p in callee.params):
+            named = {p for p in callee.params if not p.startswith("*")}
+            for k in c.keywords:
+                if k.arg is not None:
+                    if k.arg in CLOBBER_KW and k.arg not in named and self._flagval(k.value) is not False:
+                        cflags["**" + k.arg] = True
+                else:
+                    for key, vnode, how in self._kwdict_entries(k.value):
+                        if key in CLOBBER_KW and key not in named and not (vnode is not None and self._flagval(vnode) is False):
+                            cflags["**" + key] = True
+        return binding, cflags
+
     def _more_out(self, c, nm):
         o = kwarg(c, "out")
         if o is not None:
@@ -328,10 +477,28 @@ class _AnalyseX(effects._Analyse):
             for k in ck:
                 if self._flagval(k.value) is False:
                     continue
-                i = CLOBBER_KW[k.arg]
-                if i < len(c.args) and not any(isinstance(a, ast.Starred) for a in c.args[:i + 1]):
-                    self.record(self.val(c.args[i], env), c, "data", "%s(%s, %s=%s) lets the library overwrite its input" % (
-                        dotted_name(f) or nm, norm(c.args[i]), k.arg, norm(k.value)))
+                tgt = self._clobber_target(c, k.arg)
+                if tgt is not None:
+                    self.record(self.val(tgt, env), c, "data", "%s(%s, %s=%s) lets the library overwrite its input" % (
+                        dotted_name(f) or nm, norm(tgt), k.arg, norm(k.value)))
+        # the same permission handed over inside a keyword dictionary (`lib(x, **kw)`): what the caller of THIS function put
+        # into its own **kw is the caller's documented choice, but a clobber key this function itself places in the
+        # dictionary (literal, dict(...), kw[...] = , setdefault, update, merge; through copies and aliases) is this
+        # function's decision to let the library overwrite the argument
+        sk = [k for k in c.keywords if k.arg is None]
+        if sk and self.eng.resolve(self.fi, c, self.localtypes) is None:
+            explicit = {k.arg for k in c.keywords if k.arg is not None}
+            for k in sk:
+                for key, vnode, how in self._kwdict_entries(k.value):
+                    if key not in CLOBBER_KW or key in explicit:
+                        continue
+                    if vnode is not None and self._flagval(vnode) is False:
+                        continue
+                    tgt = self._clobber_target(c, key)
+                    if tgt is not None:
+                        self.record(self.val(tgt, env), c, "data",
+                                    "%s(%s, **%s) with %s lets the library overwrite its input" % (
+                                        dotted_name(f) or nm, norm(tgt), norm(k.value), how))
         if isinstance(f, ast.Attribute) and not is_np:
             recv = self.val(f.value, env)
             if any(t[0] == "P" for t in recv):
@@ -511,6 +678,31 @@ def bad_positional_out(a):
 def bad_ma_wrapper(a):
     m = np.ma.masked_invalid(a, copy=False)
     m[0] = 0
+def bad_clobber_setdefault(a, **keys):
+    keys.setdefault("overwrite_input", True)
+    return np.percentile(np.asanyarray(a), 50, **keys)
+def bad_clobber_dict_copy(a, **keys):
+    kw = dict(keys, overwrite_input=True)
+    kw2 = kw.copy()
+    return np.nanmedian(a, **kw2)
+def bad_clobber_store(a, opts=None):
+    opts = opts or {}
+    opts["overwrite_input"] = True
+    return np.quantile(a=np.atleast_1d(a), q=0.5, **opts)
+def bad_clobber_inline(a):
+    return np.median(a, **{"overwrite_input": True})
+def bad_clobber_forwarded(a):
+    return pass_keys(a, overwrite_input=True)
+def pass_keys(z, **kw):
+    return np.percentile(z, 50, **kw)
+def good_clobber_caller_choice(a, **keys):
+    kw = dict(keys)
+    kw["overwrite_input"] = False
+    kw.setdefault("axis", 0)
+    m = np.percentile(a, 50, **kw)
+    n = np.percentile(a, 50, **keys)
+    o = np.percentile(np.array(a, copy=True), 50, **{"overwrite_input": True})
+    return pass_keys(a, axis=0), pass_keys(a, overwrite_input=False)
 def good_library_copies(a):
     t = np.nan_to_num(a)
     t[0] = 1
@@ -543,7 +735,9 @@ def selfcheck(chk, eng):
         exp = {"bad_view_store": True, "bad_ufunc_out": True, "bad_inplace_op": True, "bad_callee": True, "good_copy": False,
                "bad_nan_to_num": True, "bad_nan_to_num_then_store": True, "bad_overwrite_input": True, "bad_ufunc_at": True,
                "bad_put_along_axis": True, "bad_dunder": True, "bad_positional_out": True, "bad_ma_wrapper": True,
-               "good_library_copies": False}
+               "good_library_copies": False, "bad_clobber_setdefault": True, "bad_clobber_dict_copy": True,
+               "bad_clobber_store": True, "bad_clobber_inline": True, "bad_clobber_forwarded": True,
+               "good_clobber_caller_choice": False}
         for fn, want in exp.items():
             fi = r2.func("esutil." + fn)
             s = analyse_with_arrays(e2, fi, ["a"], {})
